@@ -118,7 +118,20 @@ BASE_EXCEPTION_KINDS = [
 ]
 
 
+class Unprintable:
+    """A value whose str() and repr() raise (so does str(10 ** 5000) since Python 3.11)"""
+
+    def __repr__(self):
+        raise ValueError("this object cannot be printed")
+
+    __str__ = __repr__
+
+
 def make_value(kind: str):
+    if kind == "unprintable":
+        return Unprintable()
+    if kind == "huge-int":
+        return 10 ** 5000
     if kind == "exc-instance":
         # an error that was collected, not raised (gather(return_exceptions=True))
         return LookupError("collected")
@@ -133,7 +146,7 @@ def make_value(kind: str):
 
 
 VALUE_KINDS = ["0", "0.0", "False", "''", "[]", "()", "1", "'x'", "object", "exc-instance",
-               "exc-class"]
+               "exc-class", "unprintable", "huge-int"]
 
 
 class Kit:
